@@ -1,6 +1,7 @@
 package engine
 
 import (
+	"strings"
 	"go/token"
 
 	"golang.org/x/tools/go/ssa"
@@ -133,4 +134,41 @@ func Forwarded(v ssa.Value) ssa.Value {
 		v = f
 	}
 	return v
+}
+
+// SliceHasDeep is SliceHas that also looks into the values returned by repository functions
+// called in the slice (two levels): a value assembled by an extracted helper is recognised by
+// what the helper builds it from.
+func SliceHasDeep(v ssa.Value, m M) bool { return sliceHasDeep(v, m, 0, map[*ssa.Function]bool{}) }
+
+func sliceHasDeep(v ssa.Value, m M, depth int, seen map[*ssa.Function]bool) bool {
+	for x := range BackwardSlice(v) {
+		if m(TermOf(x)) {
+			return true
+		}
+		if depth >= 2 {
+			continue
+		}
+		call, ok := x.(*ssa.Call)
+		if !ok {
+			continue
+		}
+		g := call.Call.StaticCallee()
+		if g == nil || g.Blocks == nil || g.Pkg == nil || seen[g] || !strings.HasPrefix(g.Pkg.Pkg.Path(), ModPath) {
+			continue
+		}
+		seen[g] = true
+		for _, b := range g.Blocks {
+			for _, in := range b.Instrs {
+				if ret, ok := in.(*ssa.Return); ok {
+					for _, r := range ret.Results {
+						if sliceHasDeep(r, m, depth+1, seen) {
+							return true
+						}
+					}
+				}
+			}
+		}
+	}
+	return false
 }
